@@ -30,7 +30,7 @@ PROPS = {
                 oracles={"C03"}),
     "C04": dict(streams=["corpus", "bfs_c2", "bfs_w", "rand_cwf", "rand_cwsf", "rand_cwa"],
                 fields={"kind", "freed", "live"}, oracles={"C04"}),
-    "C05": dict(streams=["corpus", "bfs_w", "rand_cw", "rand_cwf", "rand_cws", "rand_cwk"],
+    "C05": dict(streams=["corpus", "bfs_w", "bfs_n", "rand_cw", "rand_cwf", "rand_cws", "rand_cwk", "rand_cwa", "rand_n"],
                 fields={"kind", "res", "obs", "freed", "weak"}, oracles={"C05"}),
     "C06": dict(streams=CORE + ["bfs_w", "rand_cws"], fields={"kind", "obs", "strong", "weak", "res"},
                 oracles={"C06"}),
@@ -45,7 +45,8 @@ PROPS = {
     "C11": dict(streams=["corpus", "rand_cwsp", "rand_np"],
                 fields={"kind", "Dset", "strong", "weak", "freed", "obs"},
                 oracles={"C01", "C02", "C05", "C06", "fault"}),
-    "C12": dict(streams=["corpus", "bfs_a", "rand_cwa"], fields={"kind", "tables", "res", "Dset", "freed", "live"},
+    "C12": dict(streams=["corpus", "bfs_a", "bfs_n", "rand_cwa", "rand_n"],
+                fields={"kind", "tables", "res", "Dset", "freed", "live", "strong", "weak", "obs"},
                 oracles={"C08", "C02", "C01", "fault"}),
     "C13": dict(streams=["corpus", "rand_cwe", "rand_cwo", "bfs_c2"], fields={"kind", "Dset", "strong", "tables"},
                 oracles={"C13", "C01", "fault"}),
